@@ -249,6 +249,8 @@ def run(ctx):
         ctx.violation("harness-build", "the harness does not build against the current tree: " + out[-1500:], {"build_output": out[-4000:]}, failing_input=False)
         return ctx.finish()
     vlib.seq_differential(ctx, CondSpec(), exe, proofs_ok, tag="cond")
+    if ctx.tier == "thorough":
+        vlib.patience_part(ctx, CondSpec(), exe, proofs_ok, tag="cond")
     vlib.merge_parts(ctx, "cases = controller scripts (spawn waiters with gates inside the Locker's Unlock, Signal/Broadcast, cancel, release, quiesce) run against the real ContextCond; "
                      "each recorded history must be accepted by the LTS model (some schedule produces it and every quiescence point is a model state with nothing enabled); "
                      "distinct = hash of script; non-trivial = >= 1 waiter and >= 1 signal/broadcast/cancel")
